@@ -10,7 +10,7 @@ for id in $IDS; do
   prop=$(jq -r .breaks_property seeded/$id/meta.json)
   if ! git -C /repo apply --check $PWD/seeded/$id/patch.diff 2>/dev/null; then echo "| $id | $prop | patch no longer applies | - |" >> $TMP; continue; fi
   git -C /repo apply $PWD/seeded/$id/patch.diff
-  ./run $prop quick > .build/kill-$id.out 2>&1; rc=$?
+  VERIF_EVIDENCE_DIR=/verif/.build/scratch-evidence ./run $prop quick > .build/kill-$id.out 2>&1; rc=$?
   git -C /repo checkout -q -- . ; git -C /repo clean -fdq
   sig=$(grep -m1 'sig=' .build/kill-$id.out | sed 's/.*sig=//' | cut -c1-110)
   nv=$(grep -c '^VIOLATION' .build/kill-$id.out)
